@@ -68,19 +68,20 @@ type runner struct {
 	keep    bool
 	verbose bool
 
-	dir       string
-	overlay   map[string][]byte
-	ovFiles   map[string]string // virtual path -> real path (for go test -overlay)
-	scratch   string
-	prog      *gosym.Program
-	pkgName   string
-	testBin   string
-	known     map[string]string // id -> what (open findings)
-	replayRec *replayRecord
-	seed      int64
-	start     time.Time
-	env       []string
-	generated map[string]string
+	dir         string
+	overlay     map[string][]byte
+	ovFiles     map[string]string // virtual path -> real path (for go test -overlay)
+	scratch     string
+	prog        *gosym.Program
+	pkgName     string
+	testBin     string
+	known       map[string]string // id -> what (open findings)
+	replayRec   *replayRecord
+	variantOnly string
+	seed        int64
+	start       time.Time
+	env         []string
+	generated   map[string]string
 }
 
 var goEnv = []string{"GOFLAGS=-mod=mod", "GOPROXY=off", "GOSUMDB=off", "GOTOOLCHAIN=local"}
@@ -159,6 +160,9 @@ func (r *runner) runVariants(ev *evidence) int {
 			sub.ThoroughBudget = spec.ThoroughBudget
 		}
 		if r.replayRec != nil && !r.replayRec.matches(&sub) {
+			continue
+		}
+		if r.variantOnly != "" && v.Label != r.variantOnly {
 			continue
 		}
 		r2 := &runner{spec: &sub, tier: r.tier, only: r.only, workers: r.workers, keep: r.keep, verbose: r.verbose, seed: r.seed, start: r.start, env: r.env, replayRec: r.replayRec}
